@@ -132,7 +132,11 @@ def accept_ownership(R, env, prog, crate, dctx, arm, rule):
             n += 1
             R.ob(rule, "AcceptOwnership:set-behind-guard", op["root_bb"] not in reach, "Admin::set reachable without the nominee test", loc=op["loc"], fn=hk)
             val = op["args"][2]
-            good = val[0] == "agg" and val[2] == "Some" and pending_owner_payload(prog, val[3][0][2], crate)
+            from engine.analysis import forms as _forms_ao
+            # the nominee, spelled as the stored pending owner (possibly handed back by a helper such as
+            # `state.claim_nomination(..)?`) or as info.sender — the same account behind the `==` guard above
+            behind = op["root_bb"] not in reach
+            good = any(f_[0] == "agg" and f_[2] == "Some" and (pending_owner_payload(prog, f_[3][0][2], crate) or (behind and is_sender(f_[3][0][2]))) for f_ in _forms_ao(prog, val, 3, op.get("assumptions", ())))
             R.ob(rule, "AcceptOwnership:new-admin-is-nominee", good, "Admin::set value is %s, expected Some(pending_owner)" % fmt(val)[:200], loc=op["loc"], fn=hk)
     R.floor(rule, "Admin::set in AcceptOwnership", n, 1)
     return ok
